@@ -7,24 +7,25 @@ From Coq Require Import Sorted.
 Module T := Timeline.
 Module TP := TimelineProofs.
 
-(** Splitting is a partition: for a positive chunk duration and samples of positive duration the
-    chunks' samples, concatenated, are the segment's samples in order with decode times
-    [newTime], [newTime + d1], ... ; every chunk starts where the previous one ended; only the
-    first chunk carries the styp; every chunk has the segment's sequence number; none is empty. *)
+(** Splitting is a partition, for every chunk duration and all sample durations >= 0: the chunks'
+    samples, concatenated, are the segment's samples in order with decode times [newTime],
+    [newTime + d1], ... ; every chunk starts where the previous one ended; only the first chunk
+    carries the styp; every chunk has the segment's sequence number; none is empty. *)
 Theorem C09_partition : forall fs st newTime newNr newDur C cs,
-  0 < C -> wf_input fs newTime -> Forall (fun s => 0 < s_dur s) fs ->
+  wf_input fs newTime ->
   chunkSegment fs st newTime newNr newDur C = Ok cs ->
   samples_of cs = stamped newTime fs /\ contiguous newTime cs /\
   styp_first st cs /\ Forall (fun c => c_seq c = newNr /\ c_samples c <> []) cs.
 Proof. exact chunkSegment_partition. Qed.
 Print Assumptions C09_partition.
 
-(** The hypothesis "positive durations" is needed: samples of duration 0 at the end of a
-    segment are silently dropped ([if thisChunkDur > 0]). *)
-Theorem C09_zero_dur_refuted :
-  exists fs cs, wf_input fs 0 /\ chunkSegment fs true 0 7 2 2 = Ok cs /\ samples_of cs <> stamped 0 fs.
-Proof. exact zero_dur_tail_lost. Qed.
-Print Assumptions C09_zero_dur_refuted.
+(** Before repair 14871fa samples of duration 0 at the end of a segment were dropped
+    ([if thisChunkDur > 0]); the former witness now keeps both samples. *)
+Theorem C09_zero_dur_kept :
+  let fs := [ {| s_dur := 2; s_tag := 1; s_dt := 0 |}; {| s_dur := 0; s_tag := 2; s_dt := 0 |} ] in
+  exists cs, chunkSegment fs true 0 7 2 2 = Ok cs /\ samples_of cs = stamped 0 fs /\ length cs = 2%nat.
+Proof. exact zero_dur_tail_kept. Qed.
+Print Assumptions C09_zero_dur_kept.
 
 (** No chunk spans a chunk period plus one (longest) sample or more - whatever the sample
     durations; the duration used for pacing ([chk.dur]) is the true span, except for a last
@@ -102,12 +103,11 @@ Print Assumptions C09_first_chunk_at_availability.
     fragment + sample durations), is the sample sequence of whole-segment mode (the VoD fragments
     with every tfdt shifted by newTime - first tfdt, uint64 arithmetic): same order, durations,
     opaque per-sample data (flags, size, composition offset, payload) and decode times.
+    Every chunk duration, sample durations >= 0.
     Hypothesis: the fragments of the VoD segment are contiguous. *)
 Theorem C09_same_media : forall newTime f0 frags st newNr newDur C cs,
-  0 < C ->
   frags_contiguous (f_tfdt f0) (f0 :: frags) ->
   wf_input (frag_samples (f0 :: frags)) newTime ->
-  Forall (fun s => 0 < s_dur s) (frag_samples (f0 :: frags)) ->
   chunkSegment (frag_samples (f0 :: frags)) st newTime newNr newDur C = Ok cs ->
   parse_body cs = whole_parse newTime (f0 :: frags) /\
   Forall (fun c => c_seq c = newNr) cs /\ styp_first st cs.
@@ -119,7 +119,6 @@ Print Assumptions C09_same_media.
 Theorem C09_same_media_gap_refuted :
   exists newTime f0 frags cs,
     wf_input (frag_samples (f0 :: frags)) newTime /\
-    Forall (fun s => 0 < s_dur s) (frag_samples (f0 :: frags)) /\
     chunkSegment (frag_samples (f0 :: frags)) true newTime 1 20 10 = Ok cs /\
     parse_body cs <> whole_parse newTime (f0 :: frags).
 Proof. exact same_media_gap. Qed.
@@ -131,10 +130,8 @@ Print Assumptions C09_same_media_gap_refuted.
 Theorem C09_same_media_served : forall r loopMS c n now m f0 frags st C cs,
   T.wf r loopMS -> 0 <= n -> 0 <= T.startNr c -> T.startNr c + n < two32 -> T.S r n < two64 ->
   T.lookup r loopMS c T.ByNumber (T.startNr c + n) now = T.TOk m ->
-  0 < C ->
   frags_contiguous (f_tfdt f0) (f0 :: frags) ->
   wf_input (frag_samples (f0 :: frags)) (T.S r n) ->
-  Forall (fun s => 0 < s_dur s) (frag_samples (f0 :: frags)) ->
   chunkSegment (frag_samples (f0 :: frags)) st (T.newTime m) (T.newNr m) (T.newDur m) C = Ok cs ->
   T.newTime m = T.S r n /\ T.newNr m = T.startNr c + n /\
   parse_body cs = whole_parse (T.S r n) (f0 :: frags) /\
